@@ -139,8 +139,27 @@ func runC11(c *eng.Ctx) {
 				c.Check(g && len(eq) > 0, "scan returns the value of the matching key only", c.Pos(r), "cursor.Offset is returned only after bytes.Equal(msg.Key, cursorKey)", "the scan can return another key's cursor (path "+w.String()+")")
 			}
 		}
+		// "no cursor stored" (-1) is answered only when the scan really saw the whole log: empty log, the oldest message was
+		// reached, or the reverse subscription reported its regular end. Any other error is an error, not "not found"
+		// (GetCursor caches the answer).
+		emptyLog := eng.CmpEdges(fn, eng.Call(-1, cl+"CommitLog.HighWatermark", cl+"CommitLog.OldestOffset"), eng.IntConst(-1), eng.EQ)
+		atOldest := eng.CmpEdges(fn, eng.LoadNamed("Offset", nil), eng.Call(-1, cl+"CommitLog.OldestOffset"), eng.EQ)
+		exhausted := eng.CmpEdges(fn, eng.Call(-1, "google.golang.org/grpc/internal/status.Status.Code", "google.golang.org/grpc/status.Status.Code"), eng.IntConst(8), eng.EQ) // codes.ResourceExhausted
+		allowed := append(append(append([]eng.Edge{}, emptyLog...), atOldest...), exhausted...)
+		n := 0
+		for _, r := range eng.Returns(fn) {
+			rv := eng.RetVals(r)
+			if len(rv) == 2 && eng.NilConst(rv[1]) && eng.IntConst(-1)(rv[0]) {
+				n++
+				g, w := eng.GuardedBy(fn, r, allowed)
+				c.Check(g && len(emptyLog) > 0 && len(atOldest) > 0 && len(exhausted) > 0, "not-found is answered only after a complete scan", c.Pos(r), "-1 only on an empty log, at the oldest offset, or on ResourceExhausted", "the scan answers 'no cursor stored' on a path that has not seen the whole log (path "+w.String()+"): a scan interrupted by an error (a segment replaced by compaction surfaces as status Unknown) returns -1 for a cursor that is stored, and GetCursor caches it")
+			}
+		}
+		if n == 0 {
+			c.Unresolved("return -1, nil in getLatestCursorOffset")
+		}
 	}
-	c.Floor(3)
+	c.Floor(6)
 	c.Rule("R01.5", "K5")
 	ruleUnitDiscipline(c)
 	c.Floor(8)
